@@ -73,7 +73,7 @@ def P2.place (a b : P2) (t : Option Rat) : P2 :=
   | some t => P2.lerp a b t
 
 /-- `AttrSparseVec::write` = `TVar::replace`: read, then write; returns the old value -/
-def writeVertex (d : Nat) (v : Val) : P Val (Option Val) := do
+def writeVtx (d : Nat) (v : Val) : P Val (Option Val) := do
   let old ← rA 0 d
   wA 0 d (some v)
   pure old
